@@ -201,8 +201,20 @@ def run(ctx):
                     if not ok:
                         r4.fail('RAW_STRING/escapes', 'src/parser.rs:%d' % a['line'], 'raw string literals are unescaped')
                 if p == 'Rule::FORMATTED_STRING':
-                    nested = [c for c, _ in find_nodes(a['body'], lambda y: y.get('k') == 'call' and src(y['func']) == 'apply_brace_escape')]
-                    ok = bool(nested) and any('apply_escapes' in src(c['args'][0]) or find_nodes(c['args'], lambda y: y.get('k') == 'call' and src(y['func']) == 'apply_escapes') for c in nested)
+                    # on the MIR of parse_expr and its closures: the text handed to apply_brace_escape is the result of apply_escapes
+                    # (through `?`, map_err, a named local, ...)
+                    ok = False
+                    from .lib import mirq as _mq2
+                    from .lib.facts import strip_generics as _sg2, callee_name as _cn2, op_place as _op2
+                    for b2 in ctx.mir.bodies:
+                        if b2.file != 'src/parser.rs' or 'parse_expr' not in b2.nid:
+                            continue
+                        esc = {t2['dest']['l'] for bb2, t2 in b2.calls() if _sg2(_cn2(t2) or '').endswith('str_escapes::apply_escapes') and not t2['dest']['p']}
+                        for bb2, t2 in b2.calls():
+                            if _sg2(_cn2(t2) or '').endswith('str_escapes::apply_brace_escape') and t2['args']:
+                                q2 = _op2(t2['args'][0])
+                                if q2 is not None and _mq2.backslice(b2, [q2['l']]) & esc:
+                                    ok = True
                     r4.inst({'literal': 'f-string text part', 'apply_escapes_then_brace_escape': ok}, ok=ok)
                     if not ok:
                         r4.fail('FORMATTED_STRING/escapes', 'src/parser.rs:%d' % a['line'], 'f-string text parts are not passed through apply_escapes then apply_brace_escape')
